@@ -17,21 +17,21 @@ import (
 // V is one operand / result value. Kinds: i f s b n (scalars), a (array, N =
 // length), o (*data.ObjectValue), c (*data.ClassValue), nil (Go nil), x (other).
 type V struct {
-	K string  `json:"k"`
-	I int64   `json:"i,omitempty"`
-	F uint64  `json:"f,omitempty"` // float bits
-	S string  `json:"s,omitempty"` // hex of the bytes
-	B bool    `json:"b,omitempty"`
-	N int     `json:"n,omitempty"`
-	X string  `json:"x,omitempty"`
+	K string `json:"k"`
+	I int64  `json:"i,omitempty"`
+	F uint64 `json:"f,omitempty"` // float bits
+	S string `json:"s,omitempty"` // hex of the bytes
+	B bool   `json:"b,omitempty"`
+	N int    `json:"n,omitempty"`
+	X string `json:"x,omitempty"`
 }
 
-func vi(n int64) V     { return V{K: "i", I: n} }
-func vf(f float64) V   { return V{K: "f", F: math.Float64bits(f)} }
-func vs(s string) V    { return V{K: "s", S: hex.EncodeToString([]byte(s))} }
-func vb(b bool) V      { return V{K: "b", B: b} }
-func vn() V            { return V{K: "n"} }
-func va(n int) V       { return V{K: "a", N: n} }
+func vi(n int64) V   { return V{K: "i", I: n} }
+func vf(f float64) V { return V{K: "f", F: math.Float64bits(f)} }
+func vs(s string) V  { return V{K: "s", S: hex.EncodeToString([]byte(s))} }
+func vb(b bool) V    { return V{K: "b", B: b} }
+func vn() V          { return V{K: "n"} }
+func va(n int) V     { return V{K: "a", N: n} }
 func (v V) Str() string {
 	b, _ := hex.DecodeString(v.S)
 	return string(b)
@@ -183,10 +183,11 @@ func fromData(g data.GetValue) V {
 // ------------------------------------------------------------ outcome of one evaluation
 
 // Out: what one expression evaluation did.
-//   val   — produced a value
-//   err   — raised a catchable script error (not caused by a Go panic)
-//   crash — a Go panic (observed as "go作用域异常退出的 panic(" inside try, as kind go-panic outside)
-//   none  — the recorder was never reached and nothing was thrown (should not happen)
+//
+//	val   — produced a value
+//	err   — raised a catchable script error (not caused by a Go panic)
+//	crash — a Go panic (observed as "go作用域异常退出的 panic(" inside try, as kind go-panic outside)
+//	none  — the recorder was never reached and nothing was thrown (should not happen)
 type Out struct {
 	Kind string `json:"kind"`
 	Val  V      `json:"val,omitempty"`
@@ -206,9 +207,10 @@ const panicMark = "go作用域异常退出的 panic("
 // ------------------------------------------------------------ in-process environment
 
 // recorder functions registered into the VM:
-//   __v($i)        fresh copy of operand i of the current batch
-//   __r($id, $x)   record the value of evaluation id
-//   __e($id, $m)   record that evaluation id threw (message $m)
+//
+//	__v($i)        fresh copy of operand i of the current batch
+//	__r($id, $x)   record the value of evaluation id
+//	__e($id, $m)   record that evaluation id threw (message $m)
 type env struct {
 	*vh.VMEnv
 	vals []V
@@ -229,9 +231,9 @@ func (f *fnV) Call(ctx data.Context) (data.GetValue, data.Control) {
 	}
 	return toData(f.e.vals[i]), nil
 }
-func (f *fnV) GetName() string                { return "__v" }
-func (f *fnV) GetParams() []data.GetValue     { return []data.GetValue{data.NewParameter("i", 0)} }
-func (f *fnV) GetVariables() []data.Variable  { return []data.Variable{data.NewVariable("i", 0, nil)} }
+func (f *fnV) GetName() string               { return "__v" }
+func (f *fnV) GetParams() []data.GetValue    { return []data.GetValue{data.NewParameter("i", 0)} }
+func (f *fnV) GetVariables() []data.Variable { return []data.Variable{data.NewVariable("i", 0, nil)} }
 
 type fnR struct{ e *env }
 
